@@ -184,3 +184,53 @@ def install(reg: Registry):
                      modifies=LIST_ARRAYS + DICT_ARRAYS + ('cls', 'own_obj'), allocates=True,
                      loops={0: LoopSpec(inv0, iter_src='self.lang_graph.assets'), 1: LoopSpec(inv1, iter_src='asset.attack_steps')},
                      props=('C06',), note='filter(lambda ...) is read as a guarded loop over the same list; what python_jsonschema_objects builds from the schema is assumed'))
+
+
+    # ---- get_association_by_signature (C06: associations sharing a name remain distinguishable; used by the loaders of C18 / C19)
+    def sig_requires(c):
+        o, me = c.old, c.self
+        JS = o.f('json_schema', me)
+        DEF = v_a(o.val(JS, K('definitions')))
+        LS = v_a(o.val(DEF, K('LanguageAssociation')))
+        E = v_a(o.val(LS, K('definitions')))
+        isd = lambda v: z3.And(is_VRef(v), o.cls(v_a(v)) == CLS_DICT)
+        k = z3.Const('k!sg', Val)
+        ent = lambda q: v_a(o.val(E, q))
+        return [('schema-skeleton', z3.And(o.has(JS, K('definitions')), isd(o.val(JS, K('definitions'))), o.has(DEF, K('LanguageAssociation')),
+                                           isd(o.val(DEF, K('LanguageAssociation'))), o.has(LS, K('definitions')), isd(o.val(LS, K('definitions'))))),
+                ('entries-are-dicts', FA([k], z3.Implies(o.has(E, k), z3.And(isd(o.val(E, k)), z3.Implies(o.has(ent(k), K('definitions')), isd(o.val(ent(k), K('definitions')))))),
+                                         [o.has(E, k)]))]
+
+    def sig_parts(c):
+        o, me = c.old, c.self
+        E = v_a(o.val(v_a(o.val(v_a(o.val(o.f('json_schema', me), K('definitions'))), K('LanguageAssociation'))), K('definitions')))
+        ent = v_a(o.val(E, VStr(c.assoc_name)))
+        defs = v_a(o.val(ent, K('definitions')))
+        multi = z3.And(o.has(ent, K('definitions')), o.size(defs) > 1)
+        U = str_const('_')
+        full = concat(concat(concat(concat(concat(str_const(''), c.assoc_name), U), c.left_asset), U), concat(c.right_asset, str_const('')))
+        return E, defs, multi, U
+
+    def names(c):
+        U = str_const('_')
+        e_ = str_const('')
+        mk = lambda a_, b_, c_: concat(concat(concat(concat(concat(concat(e_, a_), U), b_), U), c_), e_)
+        return mk(c.assoc_name, c.left_asset, c.right_asset), mk(c.assoc_name, c.right_asset, c.left_asset)
+
+    def sig_raise(c):
+        o = c.old
+        E, defs, multi, _ = sig_parts(c)
+        full, flipped = names(c)
+        return z3.Or(z3.Not(o.has(E, VStr(c.assoc_name))), z3.And(multi, z3.Not(o.has(defs, VStr(full))), z3.Not(o.has(defs, VStr(flipped)))))
+
+    def sig_ensures(c):
+        o = c.old
+        E, defs, multi, _ = sig_parts(c)
+        full, flipped = names(c)
+        return [('def', c.res == VStr(z3.If(multi, z3.If(o.has(defs, VStr(full)), full, flipped), c.assoc_name)))]
+
+    reg.add(Contract(MC + ':LanguageClassesFactory.get_association_by_signature',
+                     {'self': Obj(LCF), 'assoc_name': T.str, 'left_asset': T.str, 'right_asset': T.str}, returns=T('str', opt=True), pure=True,
+                     requires=sig_requires, ensures=sig_ensures, raises={'LookupError': sig_raise}, props=('C06', 'C18', 'C19'),
+                     note='the name itself when the association name is unambiguous; otherwise <name>_<left>_<right> if such a sub-entry exists, else the flipped '
+                          'one; the field-name suffix that _generate_associations appends on a clash of name AND asset types is not looked up here'))
